@@ -38,29 +38,9 @@ EXPECTED_UNBOUNDED = {('immediate', 1), ('futwait', 1), ('pool', 0), ('ts', 0), 
 NEGATIVE_CONTROL = ('poolorig', 1)
 
 
-def run(ctx):
-    thorough = ctx.tier == 'thorough'
-    exe = ctx.build('drv_inline', ['harness/drv/drv_inline.cpp'], dispenso=vlib.DISPENSO_SRCS)
-
-    # E1 ------------------------------------------------------------------------------------------
-    res = ctx.tlc(SPEC, 'MCInlineDepth.tla', 'MC_depth_all.cfg', workers=4, extra=['-noGenerateSpecTE', '-continue'],
-                  label='chains of length 1..8 at depth limit 3 under every inline policy (nest <= 5); -continue lists the violating scenarios')
-    if res.violation not in (None, 'Invariant NestBounded'):
-        path = ctx.save_replay('%s-model.txt' % ctx.prop, res.counterexample())
-        ctx.violation('model:MCInlineDepth:' + res.violation, WHAT + ': ' + res.violation, path)
-    violators = set((m.group(1), int(m.group(2))) for m in
-                    re.finditer(r'conf = \[kind \|-> "(\w+)", nw \|-> (\d+), n \|-> \d+\]', res.out))
-    if NEGATIVE_CONTROL not in violators:
-        raise vlib.ToolError('negative control did not fail: the unguarded pool path is bounded in the model')
-    unexpected = violators - EXPECTED_UNBOUNDED - {NEGATIVE_CONTROL}
-    if unexpected:
-        path = ctx.save_replay('%s-model.txt' % ctx.prop, 'unbounded in the model: %s\n\n%s' % (sorted(unexpected), res.counterexample()))
-        ctx.violation('model:MCInlineDepth:NestBounded', WHAT + ': unbounded in the model: %s' % sorted(unexpected), path)
-    ctx.cov['model_unbounded'] = sorted('%s/p%d' % v for v in violators)
-
-    # E5 ------------------------------------------------------------------------------------------
-    rec = os.path.join(ctx.work, 'inline.ndjson')
-    n = 2500
+def observe(ctx, exe, n, violators):
+    """E5: one driver run with chain lengths n and 4n, records validated by TLC"""
+    rec = os.path.join(ctx.work, 'inline_%d.ndjson' % n)
     for attempt in (0, 1):
         tot, out = ctx.driver(exe, ['--out', rec, '--n', n, '--timeout', 120], WHAT, label='long chains on 256 KB stacks (n=%d, 4n)' % n,
                               timeout=1500, report=(attempt == 1))
@@ -88,6 +68,31 @@ def run(ctx):
                 sc, model[0], model[1], r.get('crash1'), r.get('crash2'), r.get('nest1'), r.get('nest2'), r.get('sb1'), r.get('sb2')), path)
         elif not res.violation:
             ctx.violation('records:%s' % sc, WHAT + ': %s out of bound on the real code' % sc, path)
+
+
+def run(ctx):
+    thorough = ctx.tier == 'thorough'
+    exe = ctx.build('drv_inline', ['harness/drv/drv_inline.cpp'], dispenso=vlib.DISPENSO_SRCS)
+
+    # E1 ------------------------------------------------------------------------------------------
+    res = ctx.tlc(SPEC, 'MCInlineDepth.tla', 'MC_depth_all.cfg', workers=4, extra=['-noGenerateSpecTE', '-continue'],
+                  label='chains of length 1..8 at depth limit 3 under every inline policy (nest <= 5); -continue lists the violating scenarios')
+    if res.violation not in (None, 'Invariant NestBounded'):
+        path = ctx.save_replay('%s-model.txt' % ctx.prop, res.counterexample())
+        ctx.violation('model:MCInlineDepth:' + res.violation, WHAT + ': ' + res.violation, path)
+    violators = set((m.group(1), int(m.group(2))) for m in
+                    re.finditer(r'conf = \[kind \|-> "(\w+)", nw \|-> (\d+), n \|-> \d+\]', res.out))
+    if NEGATIVE_CONTROL not in violators:
+        raise vlib.ToolError('negative control did not fail: the unguarded pool path is bounded in the model')
+    unexpected = violators - EXPECTED_UNBOUNDED - {NEGATIVE_CONTROL}
+    if unexpected:
+        path = ctx.save_replay('%s-model.txt' % ctx.prop, 'unbounded in the model: %s\n\n%s' % (sorted(unexpected), res.counterexample()))
+        ctx.violation('model:MCInlineDepth:NestBounded', WHAT + ': unbounded in the model: %s' % sorted(unexpected), path)
+    ctx.cov['model_unbounded'] = sorted('%s/p%d' % v for v in violators)
+
+    # E5 ------------------------------------------------------------------------------------------
+    for n in ((2500, 10000) if thorough else (2500,)):
+        observe(ctx, exe, n, violators)
     ctx.assumptions += [
         'worst case for the load-based decisions: the overload condition holds for the whole chain (the drivers keep the pool / set over its load factor)',
         'nesting is measured from the stack pointers of body entries (over-counts by a few stale entries: slack 8), stack use at body entries',
